@@ -117,6 +117,13 @@ func (r *MemoryModelRegistry) RegisterModels(ctx context.Context, endpointURL st
 	default:
 	}
 
+	// reject the whole listing before touching the index: a failed update must leave the previous one intact
+	for _, model := range models {
+		if model != nil && model.Name == "" {
+			return domain.NewModelRegistryError("register_models", endpointURL, model.Name, fmt.Errorf("model name cannot be empty"))
+		}
+	}
+
 	r.mu.Lock()
 	defer r.mu.Unlock()
 
@@ -132,9 +139,6 @@ func (r *MemoryModelRegistry) RegisterModels(ctx context.Context, endpointURL st
 	for _, model := range models {
 		if model == nil {
 			continue // Skip nil models
-		}
-		if model.Name == "" {
-			return domain.NewModelRegistryError("register_models", endpointURL, model.Name, fmt.Errorf("model name cannot be empty"))
 		}
 
 		modelsCopy = append(modelsCopy, &domain.ModelInfo{
